@@ -109,6 +109,139 @@ def is_generator(fnode):
     return False
 
 
+# ---------------------------------------------------------------- parser generators (tags "step2" / "step2-init")
+class StepYield(Exception):
+    """`(yield e)` reached inside an extracted step: emit e and suspend.  then = 'loop' (the next resume starts the
+    loop body from the top) | 'exit' (the next resume leaves the loop) | 'final' (yield of the epilogue)"""
+    def __init__(self, val, then):
+        self.val = val
+        self.then = then
+
+
+class Step2:
+    __slots__ = ("prologue", "body", "epilogue", "yields", "loop")
+
+
+class GenV:
+    """generator object of a repo generator function that carries a "step2" contract: the bound arguments.  All state
+    that survives a yield is in the shared objects the arguments refer to (checked: the contract declares no step
+    state); `next(g)` is one application of the step contract, `g.close()` has no effect (no yield is enclosed by
+    try / with, checked by extract_step2, so GeneratorExit runs no code)."""
+    __slots__ = ("fv", "env", "contract")
+
+    def __init__(self, fv, env, contract):
+        self.fv = fv
+        self.env = env
+        self.contract = contract
+
+    def __repr__(self):
+        return "Gen<%s>" % self.fv.qual
+
+
+def _has_yield(node):
+    for n in ast.walk(node):
+        if isinstance(n, (ast.Yield, ast.YieldFrom)):
+            return True
+    return False
+
+
+def extract_step2(fnode):
+    """mechanical extraction of the step function of a parser generator.
+    Shape required (anything else: Unsupported):
+        <prologue without yield> ; while True: <body> ; <epilogue>
+    where every `yield` of the body is an expression STATEMENT `(yield e)` (the sent value is unused), is not
+    enclosed by for / while / try / with, and is immediately followed by `continue`, by `break`, or by the end of
+    the loop body (tail position through enclosing `if`s only); the body contains no `return`; the epilogue is
+    empty, `return`, `(yield e)` or `(yield e); return`.
+    The step function is ONE pass through the loop body from the top in which `(yield e)` means "emit e, suspend":
+    the pass ends there, and the next step starts at the top of the body again ('loop') or the loop is left
+    ('exit': after `break`).  A pass that ends by `continue` / by falling off the end emits nothing and the next
+    pass follows at once (no suspension); `break` without a yield runs the epilogue in the same pass.
+    State that survives a pass: the objects the parameters refer to and the locals the contract declares as step
+    state (extra names in `params`); the prologue (statements before the loop, run by the first next()) is verified
+    by a separate contract tagged "step2-init".
+    Dropped: the generator object protocol (send values, StopIteration plumbing), GeneratorExit / close() (no code
+    runs on it: no yield is enclosed by try / with), and a trailing `return` that only ends the generator."""
+    body = list(fnode.body)
+    idx = [i for i, st in enumerate(body) if isinstance(st, ast.While)]
+    if len(idx) != 1:
+        raise Unsupported("generator %s: step2 needs exactly one top-level `while True:` loop" % fnode.name)
+    loop = body[idx[0]]
+    if not (isinstance(loop.test, ast.Constant) and loop.test.value is True) or loop.orelse:
+        raise Unsupported("generator %s: step loop is not `while True:` without else" % fnode.name)
+    pro, epi = body[:idx[0]], body[idx[0] + 1:]
+    for st in pro:
+        if _has_yield(st):
+            raise Unsupported("generator %s: yield before the step loop" % fnode.name)
+    for n in ast.walk(loop):
+        if isinstance(n, ast.YieldFrom):
+            raise Unsupported("generator %s: yield from" % fnode.name)
+        if isinstance(n, ast.Return):
+            raise Unsupported("generator %s: return inside the step loop" % fnode.name)
+        if isinstance(n, (ast.FunctionDef, ast.Lambda, ast.ClassDef, ast.AsyncFunctionDef)):
+            raise Unsupported("generator %s: nested definition inside the step loop" % fnode.name)
+    yields = {}
+
+    def is_yield_stmt(st):
+        return isinstance(st, ast.Expr) and isinstance(st.value, ast.Yield)
+
+    def classify(stmts, tail):
+        for i, st in enumerate(stmts):
+            last = i == len(stmts) - 1
+            if is_yield_stmt(st):
+                if st.value.value is not None and _has_yield(st.value.value):
+                    raise Unsupported("generator %s: nested yield (line %d)" % (fnode.name, st.lineno))
+                nxt = None if last else stmts[i + 1]
+                if isinstance(nxt, ast.Continue):
+                    yields[id(st.value)] = "loop"
+                elif isinstance(nxt, ast.Break):
+                    yields[id(st.value)] = "exit"
+                elif nxt is None and tail:
+                    yields[id(st.value)] = "loop"
+                else:
+                    raise Unsupported("generator %s: `yield` at line %d is not followed by continue / break / the "
+                                      "end of the loop body" % (fnode.name, st.lineno))
+            elif isinstance(st, ast.If):
+                if _has_yield(st.test):
+                    raise Unsupported("generator %s: yield inside a condition (line %d)" % (fnode.name, st.lineno))
+                classify(st.body, tail and last)
+                classify(st.orelse, tail and last)
+            elif _has_yield(st):
+                raise Unsupported("generator %s: `yield` at line %d is not a plain statement `(yield e)` directly "
+                                  "in the loop body or in its `if`s" % (fnode.name, st.lineno))
+
+    classify(loop.body, True)
+    if not yields:
+        raise Unsupported("generator %s: the step loop never yields" % fnode.name)
+    rest = list(epi)
+    if rest and is_yield_stmt(rest[0]):
+        if rest[0].value.value is not None and _has_yield(rest[0].value.value):
+            raise Unsupported("generator %s: nested yield in the epilogue" % fnode.name)
+        yields[id(rest[0].value)] = "final"
+        rest = rest[1:]
+    if rest and not (len(rest) == 1 and isinstance(rest[0], ast.Return) and rest[0].value is None):
+        raise Unsupported("generator %s: epilogue after the step loop is not [(yield e)] [return]" % fnode.name)
+    out = Step2()
+    out.prologue, out.body, out.epilogue, out.yields, out.loop = pro, list(loop.body), list(epi), yields, loop
+    return out
+
+
+def gen_next(E, g):
+    """next(g) on a suspended parser generator = ONE application of its step contract; only when the contract
+    promises (tag "emits", an obligation of that contract) that every pass emits and loops, and no step state"""
+    c = g.contract
+    if "emits" not in c.tags:
+        raise Unsupported("next() on generator %s whose step contract is not tagged 'emits'" % g.fv.qual)
+    a = g.fv.node.args
+    sig = [x.arg for x in a.args] + [x.arg for x in a.kwonlyargs]
+    if any(k not in sig for k in c.params):
+        raise Unsupported("next() on generator %s with declared step state" % g.fv.qual)
+    env = dict(g.env)
+    env["step_emit"] = True
+    env["step_exit"] = False
+    return E.call_contract(c, g.fv, env)
+
+
 # ---------------------------------------------------------------- exceptions
 def exc_attr(E, exc, attr):
     if attr in exc.attrs:
@@ -800,6 +933,8 @@ def call_python(E, f, args, kwargs):
             return divmod(conc(args[0]), conc(args[1]))
         q, r = E.floordivmod(args[0], args[1], nk)
         return (q, r)
+    if f is _pyb.next and args and isinstance(args[0], GenV):
+        return gen_next(E, args[0])
     if f is _pyb.round:
         raise Unsupported("round")
     if f is _pyb.ord:
@@ -910,6 +1045,8 @@ def call_method(E, obj, name, args, kwargs):
     if isinstance(obj, dict) and name in ("items", "values", "keys") and not args:
         # concrete table (insertion ordered, as in CPython >= 3.7)
         return {"items": list(obj.items()), "values": list(obj.values()), "keys": list(obj.keys())}[name]
+    if isinstance(obj, GenV) and name == "close" and not args and not kwargs:
+        return None            # see GenV: no code runs on GeneratorExit
     raise Unsupported("method %s of %r" % (name, obj))
 
 
@@ -1028,6 +1165,11 @@ def list_method(E, lv, name, args, kwargs):
         raise Unsupported("list.count")
     if name == "copy":
         return E.new_list(lv.et, n, E.larrs(lv) if lv.et is not None else None)
+    h = E.reg.external_named("list.%s" % name)
+    if h is not None:
+        # methods of list-modelled objects outside the list protocol (bytearray.find / partition / decode ...):
+        # externals with the assumed library contract the contract module states
+        return h(E, [lv] + list(args), kwargs)
     raise Unsupported("list method %s" % name)
 
 
